@@ -14,7 +14,13 @@ import (
 	"golang.org/x/tools/go/ssa/ssautil"
 )
 
-const repoDir = "/repo"
+// repoDir is /repo; VERIF_REPO may point the engine at a scratch worktree (seeded-change runs only).
+var repoDir = func() string {
+	if d := os.Getenv("VERIF_REPO"); d != "" {
+		return d
+	}
+	return "/repo"
+}()
 const modPath = "github.com/tmpim/casket"
 
 type HarnessFile struct {
